@@ -542,6 +542,8 @@ func (r *fileRW) selectStmt(s *ast.SelectStmt, site string) {
 	for i, x := range cases {
 		r.replace(x.cc.Pos(), x.cc.Colon+1, fmt.Sprintf("case %d:%s", i, x.bind))
 	}
+	// (a default that cannot be reached keeps a select that ended its function a terminating statement)
+	r.insert(s.Body.Rbrace, "default: panic(\"sim: no select case chosen\"); ")
 	r.insert(s.Body.Rbrace+1, " }")
 	r.sites["select-choice"]++
 }
